@@ -114,7 +114,7 @@ def run_codes(name, terms, per_file=12, timeout=3000):
     files = []
     for k in range(0, max(1, (len(terms) + per_file - 1) // per_file)):
         chunk = terms[k * per_file:(k + 1) * per_file]
-        fn = os.path.join(cdir, f"{name}_{k}.v")
+        fn = os.path.join(cdir, f"{name}_p{os.getpid()}_{k}.v")
         with open(fn, "w") as f:
             f.write(PREAMBLE + "\nDefinition cases : list pcase := [\n" + ";\n".join(chunk) + "\n].\nEval vm_compute in case_codes cases.\n")
         files.append((fn, len(chunk)))
